@@ -32,10 +32,20 @@ def chain(row: dict) -> list[dict]:
 
 
 def csrf_service(row: dict) -> str | None:
+    """the CSRF service the handler checks – also when the check comes after the first write
+    (`lateCsrf`: then it is no guard of the chain, but the request still carries a token)"""
     for g in chain(row):
         if g["g"] in ("csrfdec", "csrfbody"):
             return g["service"]
-    return None
+    late = row.get("lateCsrf") or []
+    return late[0] if late else None
+
+
+def csrf_optional(row: dict) -> bool:
+    return any(g["g"] == "csrfdec" and g["optional"] for g in chain(row))
+
+
+CSRF_REFUSALS = ["csrf:tampered", "csrf:other-service", "csrf:other-cookie", "csrf:empty", "csrf:missing"]
 
 
 def guard_token(g: dict) -> str:
@@ -360,7 +370,8 @@ def execute(w, row: dict, v: dict, overlay: str = "minimal", restore: bool = Tru
     kind, payload, query = body_for(w, row, role, values)
     query = dict(query)
     jwt_location = overlay if overlay in JWT_LOCATION_OVERLAYS else None
-    extra, base_wins = ({}, False) if jwt_location else overlay_fields(w, row, role, overlay, values)
+    csrf_variant = overlay.split(":", 1)[1] if overlay.startswith("csrf:") else None
+    extra, base_wins = ({}, False) if (jwt_location or csrf_variant) else overlay_fields(w, row, role, overlay, values)
     if extra:
         if kind in ("form", "json", "multipart"):
             payload = {**extra, **payload} if base_wins else {**payload, **extra}
@@ -384,6 +395,22 @@ def execute(w, row: dict, v: dict, overlay: str = "minimal", restore: bool = Tru
             # the role holds no token for this service: the closest thing it owns is a
             # token for another service
             token = s.csrf.get("files") or s.csrf.get("streams")
+    if csrf_variant and svc is not None:
+        # one refusal reason, explicitly (the vector says: a token is present and not valid / absent)
+        own = s.csrf.get(svc) or next(iter(sorted(s.csrf.values())), None)
+        if csrf_variant == "tampered":
+            token = tamper(own)
+        elif csrf_variant == "other-service":
+            token = next((t for k, t in sorted(s.csrf.items()) if k != svc), tamper(own))
+        elif csrf_variant == "other-cookie":
+            # a genuine, unused token for this service that the server issued against ANOTHER csrf cookie
+            donor = next((w.sessions[a] for a in ("admin", "media", "user", "anonymous")
+                          if a != role and svc in w.sessions[a].csrf), None)
+            token = donor.csrf[svc] if donor else tamper(own)
+        elif csrf_variant == "empty":
+            token = ""
+        else:
+            token = None
     if token is not None:
         query["csrf_token"] = token
         if kind in ("form", "json", "multipart"):
